@@ -135,6 +135,62 @@ theorem decode_LDRSW (env : Env) (x : BitVec 32) (hx : x &&& 0xff000000#32 = 0x9
 
 example : (0x58000041#32) &&& 0xff000000#32 = 0x58000000#32 ∧ specImm19 0x58000041#32 = 8#64 := by decide
 
+/-- LDR (literal, SIMD&FP) S/D/Q (C7.2.192): `opc 011 1 00 imm19 Rt`; the FP register operand is known non-nil, its value is not modelled -/
+theorem decode_LDRlitS (env : Env) (x : BitVec 32) (hx : x &&& 0xff000000#32 = 0x1c000000#32) :
+    view (decode env x) = some ("LDR", [.other, .pcrel (specImm19 x)]) := by
+  obtain ⟨r, h1, h2, h3⟩ := decode_class env _ _ "LDR" [arg_St, arg_slabel_imm19_2, 0, 0, 0] (by decide +kernel) x hx
+  have h3' : r.args = [.other, .pcrel (slabel_imm19_2 x)] := by rw [h3]; rfl
+  simp [view, h1, h2, h3', slabel19_spec]
+
+theorem decode_LDRlitD (env : Env) (x : BitVec 32) (hx : x &&& 0xff000000#32 = 0x5c000000#32) :
+    view (decode env x) = some ("LDR", [.other, .pcrel (specImm19 x)]) := by
+  obtain ⟨r, h1, h2, h3⟩ := decode_class env _ _ "LDR" [arg_Dt, arg_slabel_imm19_2, 0, 0, 0] (by decide +kernel) x hx
+  have h3' : r.args = [.other, .pcrel (slabel_imm19_2 x)] := by rw [h3]; rfl
+  simp [view, h1, h2, h3', slabel19_spec]
+
+theorem decode_LDRlitQ (env : Env) (x : BitVec 32) (hx : x &&& 0xff000000#32 = 0x9c000000#32) :
+    view (decode env x) = some ("LDR", [.other, .pcrel (specImm19 x)]) := by
+  obtain ⟨r, h1, h2, h3⟩ := decode_class env _ _ "LDR" [arg_Qt, arg_slabel_imm19_2, 0, 0, 0] (by decide +kernel) x hx
+  have h3' : r.args = [.other, .pcrel (slabel_imm19_2 x)] := by rw [h3]; rfl
+  simp [view, h1, h2, h3', slabel19_spec]
+
+/-- PRFM (literal) (C6.2.248): `11 011 0 00 imm19 Rt` -/
+theorem decode_PRFMlit (env : Env) (x : BitVec 32) (hx : x &&& 0xff000000#32 = 0xd8000000#32) :
+    view (decode env x) = some ("PRFM", [.other, .pcrel (specImm19 x)]) := by
+  obtain ⟨r, h1, h2, h3⟩ := decode_class env _ _ "PRFM" [arg_prfop_Rt, arg_slabel_imm19_2, 0, 0, 0] (by decide +kernel) x hx
+  have h3' : r.args = [.other, .pcrel (slabel_imm19_2 x)] := by rw [h3]; rfl
+  simp [view, h1, h2, h3', slabel19_spec]
+
+example : (0x5c000041#32) &&& 0xff000000#32 = 0x5c000000#32 ∧ (0xd8ffffe0#32) &&& 0xff000000#32 = 0xd8000000#32
+    ∧ specImm19 0xd8ffffe0#32 = -4#64 := by decide
+
+/-! ### the NEGATIVE half of "agrees on decodability" (reviewer A3), as far as it is provable without the reference -/
+
+/-- top-level encoding groups `op0 = 00xx` (x<28:27> = 00: reserved, SME, SVE, unallocated in the Arm ARM's A64 table C4.1; a quarter of
+    the 2^32 words, incl. the zero word): NO table row intersects the class, so goom's decoder rejects every such word, whatever the
+    uninterpreted decoders do.  (That the reference rejects them too is executed by the sweep, not proved.) -/
+theorem decode_op0_00xx_undecodable (env : Env) (x : BitVec 32) (hx : x &&& 0x18000000#32 = 0#32) : decode env x = none :=
+  decodeFrom_noHit env _ _ x hx table 0 (by decide +kernel)
+
+example : (0x00000000#32) &&& 0x18000000#32 = 0#32 ∧ (0xe7ffdeff#32) &&& 0x18000000#32 = 0#32 := by decide
+
+/-! ### `Decode(src []byte)` on byte slices (reviewer C2) -/
+
+/-- decode.go:42 fewer than four bytes → errShort, for every oracle -/
+theorem decode_src_short (env : Env) (src : List (BitVec 8)) (h : src.length < 4) : decodeSrc env src = .short := by
+  match src, h with
+  | [], _ => rfl
+  | [_], _ => rfl
+  | [_, _], _ => rfl
+  | [_, _, _], _ => rfl
+  | _ :: _ :: _ :: _ :: _, h => simp at h; omega
+
+/-- decode.go:46 only the first four bytes are read: the 12 bytes goom's callers pass after the word never matter -/
+theorem decode_src_prefix (env : Env) (a b c d : BitVec 8) (t1 t2 : List (BitVec 8)) :
+    decodeSrc env (a :: b :: c :: d :: t1) = decodeSrc env (a :: b :: c :: d :: t2) := rfl
+
+example : ∀ env, decodeSrc env [0x1f#8, 0x20#8, 0x03#8] = .short := fun env => decode_src_short env _ (by decide)
+
 /-! ### the encodings goom itself EMITS on arm64 (internal/patch/monkey_arm64.go, internal/iface/jmp_arm64.go,
     internal/bytecode/memory/icache_arm64.go): MOVZ/MOVK (64-bit), LDR (unsigned offset), BR/BLR/RET, NOP -/
 
@@ -323,8 +379,11 @@ theorem emitted_stub_jump_decodes (env : Env) (dx : BitVec 64) :
     a loop, are listed in `Gen.A64Args.untranslated`).  Every operation that can panic in Go (index, division by a variable, shift by a
     signed variable) is translated to an explicit test with a `panic` outcome; constructs outside the fragment make a case
     `unknown`.  `Gen.A64Args.badKinds` lists the kinds with a `panic` or `unknown` leaf; the generated lemma `decodeArgOut_ok` covers
-    all others, for all words.  Trusted here: the translator (validated on every run against the real `decodeArg` and the real
-    predicates, see checks/C17.py).  NOT covered: termination of the one loop in `handle_bitmasks` (`Gen.A64Args.loops`), the value
+    all others, for all words.  NOTE (review B1): the kernel does not check the translator's judgement of what can panic — a case
+    without such an operation is emitted with the two-valued result type `Out2`, so `decodeArgOut_ok` is true by typing.  The content
+    of `argdec_total` is therefore: the REGENERATED translation has no panic/unknown leaf in any kind a table row uses.  The translator
+    is validated on every run against the real `decodeArg` and the real predicates, and statically against the same translation of the
+    reference decoder (checks/C17.py `source_diff`).  NOT covered: termination of the one loop in `handle_bitmasks` (`Gen.A64Args.loops`), the value
     of the argument, and `Inst.String()`. -/
 
 /-- for EVERY table row, every argument kind it uses and EVERY one of the 2^32 words, argument decoding returns an argument or
@@ -369,7 +428,7 @@ example : Gen.A64Args.decodeArgOut 16 0x11800000#32 = .nil ∧ Gen.A64Args.decod
 /-- a successful decode never carries `Op == 0`: the `inst.Op == 0 && code[0] == 0x00` padding test of both scans can
     never fire on arm64; the scans stop on a decode error or the prologue only. -/
 theorem decode_op_ne_zero (env : Env) (x : BitVec 32) (r : Res) (h : decode env x = some r) : r.op ≠ 0 := by
-  obtain ⟨row, hm, ho, _⟩ := decodeFrom_row env x table 0 r h
+  obtain ⟨row, hm, ho, _, _⟩ := decodeFrom_row env x table 0 r h
   have hall : table.all (fun r => r.op != 0) = true := by decide +kernel
   have := List.all_eq_true.mp hall row hm
   rw [← ho]; simpa using this
@@ -379,7 +438,7 @@ theorem decode_zero (env : Env) : decode env 0#32 = none := by
   cases h : decode env 0#32 with
   | none => rfl
   | some r =>
-    obtain ⟨row, hm, _, hv⟩ := decodeFrom_row env _ table 0 r h
+    obtain ⟨row, hm, _, hv, _⟩ := decodeFrom_row env _ table 0 r h
     have hall : table.all (fun r => r.value != 0#32) = true := by decide +kernel
     have := List.all_eq_true.mp hall row hm
     simp at hv
@@ -407,16 +466,74 @@ theorem inner_target_skipped (start : BitVec 64) (curLen : Nat) (rAddr : BitVec 
 example : innerTarget 0x400000#64 8 (-4#64) = none ∧ innerTarget 0x400000#64 8 (-12#64) = some 0x3ffffc#64
     ∧ innerTarget 0x400000#64 8 (64#64) = some 0x400048#64 := by decide
 
-/-- GetInnerFunc: an address is returned only for a word at an aligned offset `c ≤ 4096` that decodes to B or BL with a
-    PCRel first argument `d`, and it equals `start + c + d`; for the B / BL encodings `d` is the Arm ARM displacement
-    (decode_B, decode_BL). -/
+/-- CONVERSE of decode_B / decode_BL (reviewer A4): whenever the decoder yields opcode "B" or "BL" with a PCRel FIRST argument `d`, the
+    word IS an Arm ARM B/BL encoding (`x<30:26> = 00101`) and `d` is its architectural displacement `SignExtend(imm26:'00')`.
+    (The only other row named "B" is B.cond, whose first argument is the condition.) -/
+theorem call_result_is_call_word (env : Env) (x : BitVec 32) (r : Res) (d : BitVec 64) (h : decode env x = some r)
+    (hop : opName r.op = "B" ∨ opName r.op = "BL") (hd : r.args.head? = some (.pcrel d)) :
+    x &&& 0x7c000000#32 = 0x14000000#32 ∧ d = specImm26 x := by
+  obtain ⟨row, hm, ho, hv, ha⟩ := decodeFrom_row env x table 0 r h
+  have hall : table.all (fun r => !(isCall r.op) ||
+      ((r.mask == 0xfc000000#32) && ((r.value == 0x14000000#32) || (r.value == 0x94000000#32)) && (r.args == [arg_slabel_imm26_2, 0, 0, 0, 0])) ||
+      (r.args.head? == some arg_conditional)) = true := by decide +kernel
+  have hrow := List.all_eq_true.mp hall row hm
+  have hcall : isCall row.op = true := by rw [ho]; rcases hop with h | h <;> simp [isCall, h]
+  simp only [hcall, Bool.not_true, Bool.false_or, Bool.or_eq_true, Bool.and_eq_true, beq_iff_eq] at hrow
+  rcases hrow with ⟨⟨hmask, hval⟩, hargs⟩ | hcond
+  · rw [hargs] at ha
+    have hargs' : r.args = [.pcrel (slabel_imm26_2 x)] := by
+      have : decodeArgs env r.row [arg_slabel_imm26_2, 0, 0, 0, 0] x = some [.pcrel (slabel_imm26_2 x)] := by
+        rw [decodeArgs_interpreted env r.row x _ (by decide)]; rfl
+      rw [this] at ha; exact (Option.some.inj ha).symm
+    rw [hargs'] at hd
+    simp only [List.head?_cons, Option.some.injEq, Arg.pcrel.injEq] at hd
+    refine ⟨?_, by rw [← hd, slabel26_spec]⟩
+    rw [hmask] at hv
+    have hk : (0x7c000000#32) = 0xfc000000#32 &&& 0x7c000000#32 := by decide
+    rw [hk, ← BitVec.and_assoc, hv]
+    rcases hval with h | h <;> rw [h] <;> decide
+  · exfalso
+    cases hargs : row.args with
+    | nil => simp [hargs] at hcond
+    | cons k ks =>
+      simp only [hargs, List.head?_cons, Option.some.injEq] at hcond
+      subst hcond
+      rw [hargs] at ha
+      unfold decodeArgs at ha
+      have hi : interp arg_conditional x = some (.cond ((x &&& 0xf#32).toNat)) := rfl
+      simp only [show arg_conditional ≠ 0 by decide, if_false, decodeArg, hi] at ha
+      cases hrest : decodeArgs env r.row ks x with
+      | none => simp [hrest] at ha
+      | some as =>
+        simp only [hrest, Option.map_some, Option.some.injEq] at ha
+        rw [← ha] at hd
+        simp at hd
+
+example : ∀ env, ∃ r, decode env 0x97ffffff#32 = some r ∧ opName r.op = "BL" ∧ r.args.head? = some (.pcrel (-4#64)) := by
+  intro env
+  have h := decode_BL env 0x97ffffff#32 (by decide)
+  cases hd : decode env 0x97ffffff#32 with
+  | none => simp [hd, view] at h
+  | some r =>
+    simp only [hd, view, Option.map_some, Option.some.injEq, Prod.mk.injEq] at h
+    refine ⟨r, rfl, h.1, ?_⟩
+    rw [h.2]; decide
+
+/-- GetInnerFunc, soundness AND first-ness: an address is returned only for a word at an aligned offset `c ≤ 4096` that IS a B/BL
+    encoding, the address is `start + c + SignExtend(imm26:'00')`, and it is the FIRST qualifying one: every aligned offset before
+    `c` holds a decodable word for which no address is computed (not B/BL, or a backward branch staying inside), not followed by the
+    function prologue. -/
 theorem inner_func_addr (env : Env) (mem : Nat → BitVec 32) (start : BitVec 64) (fuel : Nat) (a : BitVec 64)
     (h : getInnerFunc env mem start fuel 0 false = .target a) :
-    ∃ c r d, c % 4 = 0 ∧ c ≤ 4096 ∧ decode env (mem c) = some r ∧ (opName r.op = "B" ∨ opName r.op = "BL") ∧
-      r.args.head? = some (.pcrel d) ∧ a = start + BitVec.ofNat 64 c + d := by
-  obtain ⟨c, r, d, _, h2, h3, h4, h5, h6, h7⟩ := inner_target env mem start fuel 0 false a (by omega) h
-  refine ⟨c, r, d, by omega, h3, h4, ?_, h6, innerTarget_eq _ _ _ _ h7⟩
-  simpa [isCall] using h5
+    ∃ c, c % 4 = 0 ∧ c ≤ 4096 ∧ mem c &&& 0x7c000000#32 = 0x14000000#32 ∧
+      a = start + BitVec.ofNat 64 c + specImm26 (mem c) ∧
+      innerTarget start c (specImm26 (mem c)) = some a ∧
+      (∀ k, k < c → k % 4 = 0 → ∃ rk, decode env (mem k) = some rk ∧ callHit start k rk = none ∧ prologueAt mem (k + 4) = false) := by
+  obtain ⟨c, r, d, _, h2, h3, h4, h5, h6, h7, h8⟩ := inner_target env mem start fuel 0 false a (by omega) h
+  have hop : opName r.op = "B" ∨ opName r.op = "BL" := by simpa [isCall] using h5
+  obtain ⟨hw, hd⟩ := call_result_is_call_word env (mem c) r d h4 hop h6
+  subst hd
+  exact ⟨c, by omega, h3, hw, innerTarget_eq _ _ _ _ h7, h7, fun k hk hk4 => h8 k (by omega) hk (by omega)⟩
 
 /-- composition for the call encodings: if the scan meets a B/BL word first at offset `c` whose displacement qualifies,
     it returns exactly `start + c + SignExtend(imm26:'00')`.  (One step of the loop.) -/
@@ -454,15 +571,24 @@ example : ∀ env, getInnerFunc env (fun c => if c = 0 then 0x94000010#32 else 0
 theorem inner_func_terminates (env : Env) (mem : Nat → BitVec 32) (start : BitVec 64) :
     getInnerFunc env mem start 1026 0 false ≠ .fuel := inner_fuel env mem start 1026 0 false (by omega) (by omega)
 
-/-- GetFuncSize: the extent returned is a multiple of 4, every word before it decodes, and it is the offset of the first
-    undecodable word or of the function prologue met after at least one instruction — nothing else can stop the scan
-    (`minimal` and the int0 flags are dead on arm64 because no decode has Op 0). -/
+/-- GetFuncSize (uncached scan): the extent returned is a multiple of 4, every word before it decodes, no aligned offset strictly
+    inside it holds the function prologue, and it is the offset of the first undecodable word or of the prologue met
+    after at least one instruction — nothing else can stop the scan (`minimal` and the int0 flags are dead on arm64: no decode has Op 0). -/
 theorem func_size_extent (env : Env) (mem : Nat → BitVec 32) (minimal : Bool) (fuel n : Nat)
     (h : getFuncSize env mem minimal fuel 0 false = some n) :
     n % 4 = 0 ∧ (∀ k, k < n → k % 4 = 0 → (decode env (mem k)).isSome = true) ∧
+      (∀ k, 0 < k → k < n → k % 4 = 0 → prologueAt mem k = false) ∧
       (decode env (mem n) = none ∨ (0 < n ∧ prologueAt mem n = true)) := by
-  obtain ⟨_, h2, h3, h4⟩ := funcSize_extent env mem minimal (fun w r => decode_op_ne_zero env w r) fuel 0 n h
-  exact ⟨by omega, fun k hk hk4 => h3 k (by omega) hk (by omega), h4⟩
+  obtain ⟨_, h2, h3, h4, h5⟩ := funcSize_extent env mem minimal (fun w r => decode_op_ne_zero env w r) fuel 0 n h
+  exact ⟨by omega, fun k hk hk4 => h3 k (by omega) hk (by omega), fun k h0 hk hk4 => h5 k h0 hk (by omega), h4⟩
+
+/-- GetFuncSize WITH its cache (func_arm64.go:31-37, reviewer C1): a first call on an empty cache entry returns the scanned extent and
+    stores it; every later call for the same `start` returns that same extent (whatever the memory holds by then) and keeps the entry. -/
+theorem func_size_cached (env : Env) (mem mem' : Nat → BitVec 32) (minimal minimal' : Bool) (fuel fuel' n : Nat)
+    (h : getFuncSize env mem minimal fuel 0 false = some n) :
+    getFuncSizeCached env mem minimal fuel none = some (n, some n) ∧
+    getFuncSizeCached env mem' minimal' fuel' (some n) = some (n, some n) := by
+  simp [getFuncSizeCached, h]
 
 /-- zero padding ends a function: NOP; zero word -/
 example : ∀ env, getFuncSize env (fun c => if c = 0 then 0xd503201f#32 else 0#32) false 3 0 false = some 4 := by
